@@ -940,10 +940,10 @@ class C11Check(PCheck):
 
     @staticmethod
     def surplus_hydrogen_case(diffs, v, task, base_topology):
-        """True when every difference is of the narrow class listed as known finding 'hren-nt-terminal-hydrogen':
+        """True when every difference is of the narrow class listed as known finding 'hren-terminal-surplus-hydrogen':
         hydrogens renamed, -nt given, only float parameters of otherwise identical interactions and coordinates of
         particles in terminal residues differ, by small amounts."""
-        if 'hren' not in v['present'] or '-nt' not in task['argv']:
+        if 'hren' not in v['present']:
             return False
         for cls, detail in diffs:
             if cls == 'interactions':
@@ -1012,9 +1012,10 @@ class C11Check(PCheck):
             diffs = compare_topologies(base['topology'], r['topology'], v['present'], task['argv'])
             stats.probes['group_compared'] += 1
             if diffs and self.surplus_hydrogen_case(diffs, v, task, base['topology']):
-                # known finding: with -nt a protonated terminus has one hydrogen too many; which of the equivalent
-                # hydrogens is discarded is decided by its name, and the bead position shifts slightly with it
-                failure = failure or ('surplus-hydrogen', 'hren-nt-terminal-hydrogen',
+                # known finding: a terminal residue with more hydrogens than its template (-nt on NH3+; termini assigned
+                # by residue number on unusual numberings): which of the equivalent hydrogens is discarded is decided by
+                # its name, and the bead position shifts slightly with it
+                failure = failure or ('surplus-hydrogen', 'hren-terminal-surplus-hydrogen',
                                       {'kind': v['kind'], 'present': v['present'], 'all': [d[0] for d in diffs],
                                        'first': {k: val for k, val in diffs[0][1].items() if k not in ('pairs', 'bad')}})
                 continue
